@@ -187,6 +187,9 @@ def typeCheckLets : Ctx → List (String × TE α) → Except TErr Ctx
     else typeCheckLets ((n, e.typeOf g) :: g) rest
 end static
 
+/-- `MAX_RANGE_SIZE` (`NumericRange::call`: a larger range is the `TooLarge` error) -/
+def rangeCap : Int := 10000000
+
 /-! ### dynamic side -/
 section dynamic
 variable {α : Type} [Arith α] [ToU64 α]
@@ -254,7 +257,7 @@ def TE.eval (r : VEnv α) : TE α → Except TErr (TVal α)
       let hi ← intOf (← b.eval r)
       match (← c.eval r) with
       | .scalar (.boolean inc) =>
-        if (hi - lo + (if inc then 1 else 0)) > 10000000 then .error .other   -- TooLarge
+        if (hi - lo + (if inc then 1 else 0)) > rangeCap then .error .other   -- TooLarge
         else
           let pos := rangeIsPositive lo hi
           .ok (.arr (if pos then .pint else .integer)
